@@ -63,7 +63,9 @@ func genRegistrySpec(seed uint64, tier string) *spec.RunSpec {
 				used[rs.Universe[i].Name] = true
 			}
 		}
-		if len(set) == 0 {
+		if v > 0 && r.Bool(0.15) {
+			set = nil // the operator removes the last user: a reload to an empty user list
+		} else if len(set) == 0 {
 			set = []int{0}
 		}
 		rs.Sets = append(rs.Sets, set)
